@@ -138,6 +138,8 @@ type IdP struct {
 	FullMetadata bool
 	// AtHash: ID tokens carry at_hash, the hash of the access token issued WITH them (OIDC Core 3.1.3.6)
 	AtHash bool
+	// BigTokens, when positive, makes ID tokens (a groups claim) and access tokens about that many bytes longer
+	BigTokens int
 	// JWKSHeaders are added to every JWKS answer (cache directives)
 	JWKSHeaders map[string]string
 	jwksTimes   []time.Time
@@ -539,10 +541,21 @@ func (p *IdP) process(call *TokenCall, beh *Behaviour) (int, string) {
 	if nonce != "" && !(call.Grant == "refresh_token" && beh.OmitNonce) {
 		claims["nonce"] = nonce
 	}
+	if p.BigTokens > 0 {
+		// a user in many groups: tokens of several KiB
+		var groups []string
+		for n := 0; n < p.BigTokens; n += 40 {
+			groups = append(groups, fmt.Sprintf("cn=group-%04d,ou=teams,dc=example,dc=org", n/40))
+		}
+		claims["groups"] = groups
+	}
 	resp := map[string]any{}
 	var pendingAT string
 	if !beh.NoAccess {
 		pendingAT = p.marker("at")
+		if p.BigTokens > 0 {
+			pendingAT += "." + strings.Repeat("0123456789abcdefghijklmnopqrstuvwxyzABCDEFGHIJKLMNOPQRSTUVWXYZ-_", 1+p.BigTokens/64)
+		}
 		if p.AtHash {
 			h := sha256.Sum256([]byte(pendingAT))
 			claims["at_hash"] = base64.RawURLEncoding.EncodeToString(h[:16])
